@@ -320,6 +320,13 @@ struct TreeO {
     files: Vec<String>,
     work: Vec<(String, String)>,
     pool: Vec<String>,
+    /// output location given to `with_output` in output mode; a work item whose relative path is empty is
+    /// written to the output location itself (single file to an output file)
+    output: String,
+    /// single-site sweep: keep one case out of `sweep_mod.0` (quick) / `.1` (thorough)
+    sweep_mod: (usize, usize),
+    /// random multi-site cases per (pipeline, mode): quick / thorough
+    random_cases: (usize, usize),
 }
 
 static ALL_TREES: std::sync::OnceLock<Vec<TreeO>> = std::sync::OnceLock::new();
@@ -376,20 +383,86 @@ fn random_tree(rng: &mut Rng, index: usize) -> TreeO {
     let work = files.iter().map(|f| (f.clone(), f.clone())).collect();
     let mut all_files = files.clone();
     all_files.push("readme.md".into());
-    TreeO { name: format!("random-{}", index), input: String::new(), files: all_files, work, pool }
+    TreeO {
+        name: format!("random-{}", index),
+        input: String::new(),
+        files: all_files,
+        work,
+        pool,
+        output: "out".into(),
+        sweep_mod: (40, 16),
+        random_cases: (500, 2500),
+    }
+}
+
+/// every KIND of input (directory / single file) x SPELLING of it (normalised, `./` prefix, inner `.`, `..`,
+/// trailing slash) x OUTPUT (new directory, existing directory, output file): the filters must see the
+/// normalised source path whatever the spelling (worker_tree.rs add_source_if_missing / collect_work)
+fn spelling_trees() -> Vec<TreeO> {
+    let dir_pool: Vec<String> = STATIC_TREES[1].pool.iter().map(|x| x.to_string()).collect();
+    let file_pool: Vec<String> = STATIC_TREES[2].pool.iter().map(|x| x.to_string()).collect();
+    let mut out = Vec::new();
+    let dir_files = ["src/a.lua", "src/x/a.lua", "src/x/y/b.lua", "src/x/y/a b.lua", "other/a.lua"];
+    let dir_work = [("src/a.lua", "a.lua"), ("src/x/a.lua", "x/a.lua"), ("src/x/y/b.lua", "x/y/b.lua"), ("src/x/y/a b.lua", "x/y/a b.lua")];
+    for (si, input) in ["src", "./src", "src/", "src/.", "src/x/..", "./src/./x/../"].iter().enumerate() {
+        for existing in [false, true] {
+            let mut files: Vec<String> = dir_files.iter().map(|x| x.to_string()).collect();
+            if existing {
+                files.push("out/placeholder.txt".into());
+            }
+            out.push(TreeO {
+                name: format!("spelling-dir-{}-{}", si, if existing { "existing-out" } else { "new-out" }),
+                input: (*input).to_owned(),
+                files,
+                work: dir_work.iter().map(|(a, b)| (a.to_string(), b.to_string())).collect(),
+                pool: dir_pool.clone(),
+                output: "out".into(),
+                sweep_mod: (24, 4),
+                random_cases: (60, 400),
+            });
+        }
+    }
+    for (si, input) in ["src/x/a.lua", "./src/x/a.lua", "src/./x/a.lua", "src/x/y/../a.lua", "./src/../src/x/./a.lua"].iter().enumerate() {
+        for (oi, (output, rel, existing)) in [("out", "a.lua", false), ("out", "a.lua", true), ("out/result.lua", "", false)].iter().enumerate() {
+            let mut files: Vec<String> = vec!["src/a.lua".into(), "src/x/a.lua".into(), "src/x/y/b.lua".into()];
+            if *existing {
+                files.push("out/placeholder.txt".into());
+            }
+            out.push(TreeO {
+                name: format!("spelling-file-{}-{}", si, ["new-out", "existing-out", "out-file"][oi]),
+                input: (*input).to_owned(),
+                files,
+                work: vec![("src/x/a.lua".to_owned(), (*rel).to_owned())],
+                pool: file_pool.clone(),
+                output: (*output).to_owned(),
+                sweep_mod: (6, 1),
+                random_cases: (60, 400),
+            });
+        }
+    }
+    out
+}
+
+fn fixed_tree_count() -> usize {
+    STATIC_TREES.len() + spelling_trees().len()
 }
 
 fn init_trees(seed: u64, n_random: usize) {
     let mut all: Vec<TreeO> = STATIC_TREES
         .iter()
-        .map(|t| TreeO {
+        .enumerate()
+        .map(|(i, t)| TreeO {
             name: t.name.to_owned(),
             input: t.input.to_owned(),
             files: t.files.iter().map(|x| x.to_string()).collect(),
             work: t.work.iter().map(|(a, b)| (a.to_string(), b.to_string())).collect(),
             pool: t.pool.iter().map(|x| x.to_string()).collect(),
+            output: "out".into(),
+            sweep_mod: if i == 0 { (1, 1) } else { (4, 1) },
+            random_cases: (500, 2500),
         })
         .collect();
+    all.extend(spelling_trees());
     let mut rng = Rng::new(seed ^ 0x7ee5);
     for i in 0..n_random {
         all.push(random_tree(&mut rng, i));
@@ -519,7 +592,7 @@ fn run_real(case: &Case, cfg_text: &str) -> Result<Vec<Option<String>>, String> 
         let cfg: Configuration = json5::from_str(&cfg_text).map_err(|e| format!("config rejected: {}", e))?;
         let mut options = Options::new(tree.input.as_str()).with_configuration(cfg);
         if !in_place {
-            options = options.with_output("out");
+            options = options.with_output(tree.output.as_str());
         }
         let worker_tree = process(&resources, options).map_err(|e| format!("process error: {}", e))?;
         worker_tree
@@ -527,7 +600,13 @@ fn run_real(case: &Case, cfg_text: &str) -> Result<Vec<Option<String>>, String> 
             .map_err(|errs| format!("process errors: {}", errs.iter().map(|e| e.to_string()).collect::<Vec<_>>().join("; ")))?;
         let mut outs = Vec::new();
         for (source, rel) in &tree.work {
-            let location = if in_place { source.clone() } else { format!("out/{}", rel) };
+            let location = if in_place {
+                source.clone()
+            } else if rel.is_empty() {
+                tree.output.clone()
+            } else {
+                format!("{}/{}", tree.output, rel)
+            };
             outs.push(resources.get(&location).ok());
         }
         // files outside the input, or not Lua, are never touched
@@ -741,7 +820,7 @@ fn check_case(case: &Case, model: &mut Model, references: &References, spec_cach
     let cfg_text = config_value(case, None).to_string();
     let case_json = json!({"kind": "process", "case": case, "config": cfg_text, "tree": tree.name,
         "input": tree.input, "files": tree.files, "pipeline": PIPELINES[case.pipeline].name,
-        "seed": SEED.load(std::sync::atomic::Ordering::Relaxed), "random_trees": trees().len() - STATIC_TREES.len()});
+        "seed": SEED.load(std::sync::atomic::Ordering::Relaxed), "random_trees": trees().len() - fixed_tree_count()});
     let patterns = case_patterns(case);
     // real matcher (rows cached per (tree, pattern): every call of the hook compiles the pattern)
     let mut real_matrix: Vec<Vec<bool>> = Vec::new();
@@ -892,7 +971,18 @@ fn check_case(case: &Case, model: &mut Model, references: &References, spec_cach
         outcome.hist.push(("rule-apply-form".into(), a.form().into()));
         outcome.hist.push(("rule-skip-form".into(), s.form().into()));
     }
-    outcome.hist.push(("tree".into(), if tree.name.starts_with("random") { "random".into() } else { tree.name.clone() }));
+    outcome.hist.push((
+        "tree".into(),
+        if tree.name.starts_with("random") {
+            "random".into()
+        } else if tree.name.starts_with("spelling-dir") {
+            "spelling-dir".into()
+        } else if tree.name.starts_with("spelling-file") {
+            "spelling-file".into()
+        } else {
+            tree.name.clone()
+        },
+    ));
     outcome.hist.push(("pipeline".into(), PIPELINES[case.pipeline].name.into()));
     outcome.hist.push(("mode".into(), if case.in_place { "in-place" } else { "output-dir" }.into()));
     outcome.hist.push((
@@ -969,11 +1059,8 @@ fn generate_cases(report: &Report) -> Vec<Case> {
                             if (ai + si) % step != 0 {
                                 continue;
                             }
-                            if !thorough && ti != 0 && (ai * 31 + si * 17 + site) % 4 != 0 {
-                                continue;
-                            }
-                            // seeded random trees: a thin slice of the sweep, they mostly serve the random part
-                            if ti >= STATIC_TREES.len() && (ai * 31 + si * 17 + site) % (if thorough { 16 } else { 40 }) != 0 {
+                            let modulus = if thorough { tree.sweep_mod.1 } else { tree.sweep_mod.0 };
+                            if (ai * 31 + si * 17 + site) % modulus != 0 {
                                 continue;
                             }
                             let mut case = Case {
@@ -993,7 +1080,7 @@ fn generate_cases(report: &Report) -> Vec<Case> {
                     }
                 }
                 // random multi-site
-                let n = if thorough { 2500 } else { 500 };
+                let n = if thorough { tree.random_cases.1 } else { tree.random_cases.0 };
                 for _ in 0..n {
                     let mut case = Case {
                         tree: ti,
@@ -1116,7 +1203,7 @@ pub fn run(report: &mut Report, replay: Option<&str>) {
     report.rule = "Part A compares the real FilterPattern with the Lean reference glob on an exhaustive pattern x path grid \
         (every pair counts as an evaluation). Part B runs the real process() on memory trees with filters at one site \
         (exhaustive sweep over site x apply list x skip list) and at several sites (seeded random), on three fixed trees \
-        (inputs '', './src/../src/', a single file) and on seeded random trees with pattern pools derived from their paths; a case is non-trivial \
+        (inputs '', './src/../src/', a single file), on 27 input-spelling trees (directory / file input x spelling x output kind) and on seeded random trees with pattern pools derived from their paths; a case is non-trivial \
         when, by the reference matcher, at least one (file, site) verdict is yes and at least one is no, i.e. the filters \
         really discriminate; distinct = distinct (tree, pipeline, mode, filters)."
         .to_owned();
